@@ -237,6 +237,21 @@ def hTrimBlocks : Handler := handler fun args =>
     pure (SExp.ofNatss (trimBlocks (← toBoolSym? bn) (← a.toNat?) (← b.toNat?) (← bs.toNatss?)))
   | _ => none
 
+/-- `(overlapboundary d (padL…) (padR…) ((blk…) …))`: the blocks of `overlap(x, d, boundary)` along one axis;
+    cells are integers (positions; a negative number stands for the constant fill) -/
+def hOverlapBoundary : Handler := handler fun args =>
+  match args with
+  | [d, pl, pr, bs] => do
+    pure (.list ((overlapWithBoundary (← d.toNat?) (← pl.toInts?) (← pr.toInts?) (← bs.toIntss?)).map SExp.ofInts))
+  | _ => none
+
+/-- `(slidingblocks w ((blk…) …))`: per block the windows dask's `sliding_window_view` produces along one axis -/
+def hSlidingBlocks : Handler := handler fun args =>
+  match args with
+  | [w, bs] => do
+    pure (.list ((slidingBlocks (← w.toNat?) (← bs.toNatss?)).map fun ws => SExp.ofNatss ws))
+  | _ => none
+
 /-- `(padpositions kind d n)` ↦ positions, `none` for the constant fill -/
 def hPadPositions : Handler := handler fun args =>
   match args with
@@ -361,6 +376,7 @@ def table : List (String × Handler) := [
   ("slicend", hSliceND),
   ("overlapchunks", hOverlapChunks), ("trimchunks", hTrimChunks), ("ensuremin", hEnsureMin),
   ("overlapblocks", hOverlapBlocks), ("trimblocks", hTrimBlocks), ("padpositions", hPadPositions),
+  ("overlapboundary", hOverlapBoundary), ("slidingblocks", hSlidingBlocks),
   ("slicesfromchunks", hSlicesFromChunks), ("fuseslice", hFuseSlice), ("fuseint", hFuseInt),
   ("storeplan", hStorePlan), ("npychunks", hNpyChunks),
   ("parseslice", hParseSlice), ("blockslices", hBlockSlices), ("blockint", hBlockInt),
